@@ -758,6 +758,15 @@ inductive Stmt where
   | setitem (i : Nat) (iv : Nat) (e : Expr)
   deriving Repr
 
+/-- `x_i[idx] = rhs` (derivative-free target): the new value of the target, or the exception -/
+def setStmt (env : Env K) (i iv : Nat) (e : Expr) : Except Err (Obj K) :=
+  match eval P env e with
+  | .error er => .error er
+  | .ok rhs =>
+    match setitemCode (env.objs.getD i (emptyObj P)).main (env.idxs.getD iv ⟨[], fun _ => ⟨0, true⟩⟩) rhs.main with
+    | .error er => .error er
+    | .ok m => .ok ⟨m, none⟩
+
 /-- run the statements in order; every statement contributes the outcome it shows (the new value of
     the target, or the query result, or the exception) -/
 def runStmts (env : Env K) : List Stmt → List (Except Err (Obj K)) × Env K
@@ -767,16 +776,7 @@ def runStmts (env : Env K) : List Stmt → List (Except Err (Obj K)) × Env K
     let (out, env') := runStmts env rest
     (r :: out, env')
   | .setitem i iv e :: rest =>
-    -- `x_i[idx] = rhs`: values, mask and (when both carry one) the derivative are assigned element by element
-    let x := env.objs.getD i (emptyObj P)
-    let idx := env.idxs.getD iv ⟨[], fun _ => ⟨0, true⟩⟩
-    let r : Except Err (Obj K) :=
-      match eval P env e with
-      | .error er => .error er
-      | .ok rhs =>
-        match setitemCode x.main idx rhs.main with
-        | .error er => .error er
-        | .ok m => .ok ⟨m, none⟩
+    let r := setStmt P env i iv e
     let env1 : Env K := match r with
       | .ok y => { env with objs := env.objs.set i y }
       | .error _ => env
